@@ -8,7 +8,8 @@ for d in seeded/${1:-C*}/; do
   own=$(/venv/bin/python -c "import json,sys; m=json.load(open('$d/meta.json')); c=m['caught_by']; p=m['property']; print(p if p in c else (c[0] if c else '-'))")
   [ "$own" = "-" ] && { echo "$id - kept although no check reports it (reasons in meta.json)"; continue; }
   out=$(./tools_seed_eval.sh $PWD/$d/patch.diff $own 2>&1)
-  if echo "$out" | grep -q "patch does not apply"; then echo "$id $own NOAPPLY (applies to /repo commit $(/venv/bin/python -c "import json; print(json.load(open('$d/meta.json')).get('applies_to'))"))";
+  ap=$(/venv/bin/python -c "import json; print(json.load(open('$d/meta.json')).get('applies_to'))")
+  if echo "$out" | grep -q "patch does not apply"; then echo "$id $own NOAPPLY (applies to /repo commit $ap)";
   elif echo "$out" | grep -q "^VIOLATION"; then echo "$id $own caught";
   else echo "$id $own MISSED: $(echo "$out" | tail -1 | cut -c1-160)"; fi
 done
